@@ -175,6 +175,10 @@ type walker struct {
 	// locks held by the goroutine that spawned the code being walked (it may wait for that code: the
 	// collector of Send waits for the traversals): call-backs made there count as made under these locks
 	spawnLocks lockSet
+	// function literals passed as arguments to an inlined function, by parameter name: a call of the
+	// parameter inside the callee runs the literal under the callee's locks at that point
+	binds    []map[string]*ast.FuncLit
+	litStack []*ast.FuncLit
 	deferred map[string]bool
 	leaks    *[]callback
 }
@@ -618,6 +622,24 @@ func (w *walker) call(c *ast.CallExpr, ls lockSet) lockSet {
 		if fd, ok := w.p.funcs[f.Name]; ok {
 			return w.inline(fd, ls, c)
 		}
+		for i := len(w.binds) - 1; i >= 0; i-- {
+			if lit, ok := w.binds[i][f.Name]; ok {
+				for _, l := range w.litStack {
+					if l == lit {
+						return ls
+					}
+				}
+				w.litStack = append(w.litStack, lit)
+				saved := w.binds
+				w.binds = w.binds[:i] // the literal's own free names are those of the scope it was written in
+				w.litDepth++
+				w.stmts(lit.Body.List, ls.clone())
+				w.litDepth--
+				w.binds = saved
+				w.litStack = w.litStack[:len(w.litStack)-1]
+				return ls
+			}
+		}
 	case *ast.SelectorExpr:
 		// method call on a field of an external type: x.f.M(...)
 		if inner, ok := f.X.(*ast.SelectorExpr); ok {
@@ -726,7 +748,34 @@ func (w *walker) inline(fd *ast.FuncDecl, ls lockSet, at ast.Node) lockSet {
 		return ls
 	}
 	w.stack = append(w.stack, key)
+	bind := map[string]*ast.FuncLit{}
+	if ce, ok := at.(*ast.CallExpr); ok && fd.Type.Params != nil {
+		var names []string
+		for _, f := range fd.Type.Params.List {
+			for _, n := range f.Names {
+				names = append(names, n.Name)
+			}
+		}
+		for i, a := range ce.Args {
+			if i >= len(names) {
+				break
+			}
+			switch x := a.(type) {
+			case *ast.FuncLit:
+				bind[names[i]] = x
+			case *ast.Ident:
+				for j := len(w.binds) - 1; j >= 0; j-- {
+					if lit, ok := w.binds[j][x.Name]; ok {
+						bind[names[i]] = lit
+						break
+					}
+				}
+			}
+		}
+	}
+	w.binds = append(w.binds, bind)
 	out := w.stmts(fd.Body.List, ls.clone())
+	w.binds = w.binds[:len(w.binds)-1]
 	w.stack = w.stack[:len(w.stack)-1]
 	// locks held on return: deferred unlocks release what the callee acquired; keep the caller's view
 	// of its own locks, but honour explicit releases of caller-held locks done by the callee
@@ -908,8 +957,8 @@ func writeAccesses(path string, acc []access) {
 	}
 	type key struct {
 		loc, fn, site, via string
-		write             bool
-		locks             string
+		write              bool
+		locks              string
 	}
 	seen := map[key]bool{}
 	var rows []access
@@ -1041,7 +1090,7 @@ func excludedLoc(loc string) bool {
 func writeLockSites(path string, cbs, writes, nested, leaks []callback) {
 	var sb strings.Builder
 	sb.WriteString("/- GENERATED by harness/cmd/gofacts from /repo's current source. Do not edit. -/\nnamespace Evl.Generated\n\n")
-	sb.WriteString("/-- a call into user code reachable from an exported Broker method; `brokerLock`: 0 not held, 1 read, 2 write -/\nstructure CallbackSite where\n  kind : Nat   -- 0 Process, 1 Reopen, 2 Close\n  brokerLock : Nat\n  deriving DecidableEq, Repr\n\n")
+	sb.WriteString("/-- a call into user code reachable from an exported Broker method; `brokerLock`: 0 not held, 1 read, 2 write -/\nstructure CallbackSite where\n  kind : Nat   -- 0 Process, 1 Reopen, 2 Close\n  brokerLock : Nat\n  otherLocks : Nat   -- library locks other than Broker.lock held at the call (a function literal run by an inlined callee counts the callee's locks)\n  deriving DecidableEq, Repr\n\n")
 	sb.WriteString("def brokerCallbacks : List CallbackSite := [\n")
 	var lines []string
 	seen := map[string]bool{}
@@ -1061,12 +1110,18 @@ func writeLockSites(path string, cbs, writes, nested, leaks []callback) {
 				held = 2
 			}
 		}
-		k := fmt.Sprintf("%s|%s|%d", c.entry, c.site, held)
+		other := 0
+		for l := range c.locks {
+			if l != "eventlogger.Broker.lock" {
+				other++
+			}
+		}
+		k := fmt.Sprintf("%s|%s|%d|%d", c.entry, c.site, held, other)
 		if seen[k] {
 			continue
 		}
 		seen[k] = true
-		lines = append(lines, fmt.Sprintf("  { kind := %d, brokerLock := %d }\t-- %s -> %s at %s", kind, held, c.entry, c.kind, c.site))
+		lines = append(lines, fmt.Sprintf("  { kind := %d, brokerLock := %d, otherLocks := %d }\t-- %s -> %s at %s", kind, held, other, c.entry, c.kind, c.site))
 	}
 	sort.Strings(lines)
 	for i, l := range lines {
